@@ -28,11 +28,23 @@ package core
 //     (m_i for a non-lending sibling), i.e. the weakest assertion.
 //   * what happens when the minimum-phase amounts do not fit (only the bounds are asserted there).
 //
-// Exact differential: an independent water-filling reference in math/big with the tie rule documented
-// at computeHamiltonDeltas (largest remainder first, ties by quota name) must give identical integers
-// for the siblings that compete for the pool. The reference takes the minimum-phase amounts of the
-// non-competing siblings from the observed output (they are bounds-checked), so it does not encode the
-// non-lending rule.
+// NOT asserted: who receives an indivisible leftover unit among equally entitled siblings, and the
+// apportionment method as such (largest remainder or any other). The statement only demands that no
+// unit is created or dropped, proportionality, purity and order independence; every algorithm with
+// these properties must pass. An independent round-based water-filling reference in math/big
+// (largest remainder first, ties by quota name: the rule the code documents today) is still computed
+// for every division, but only for the evidence (number of rounds, residue redistributed) and for the
+// counter converse_misses_reference_tiebreak_or_method_differs; it is never a verdict. The reference
+// takes the minimum-phase amounts of the non-competing siblings from the observed output, so it does
+// not encode the non-lending rule either.
+//
+// Soundness of the fairness slack: in a round every participant is offered its exact share w*T/W
+// rounded down or up (error < 1 unit), so for two siblings that took part in the same rounds
+// |x_i*w_j - x_j*w_i| grows by at most w_i+w_j per round; a sharing round that is followed by another
+// one saturates at least one participant, so there are at most k rounds for k competing siblings. A
+// sibling that got satisfied stopped receiving, so it holds no more per weight than one that was
+// offered a share in every round (one-sided, same slack). All products are exact (128-bit; the sampled
+// unit cross-checks them against math/big).
 //
 // In-domain rules of the generators: all quantities >= 0; names unique; sum over siblings of
 // max(request,min,guarantee) and sum of weights fit in int64 (real clusters are far below); total in
@@ -149,7 +161,7 @@ func c02Read(qt *quotaTree, sibs []c02Sib, out []int64) bool {
 
 type c02Stats struct {
 	evals, belowFloor, belowFloorIsFloor, exactFloor, partial, saturated  int
-	refCompared, refMultiRound, residualRounds, residualUnits             int
+	refCompared, refMultiRound, residualRounds, residualUnits, refDiffers int
 	pairUnsat, pairSatUnsat, zeroWeightCompetitor, zeroWeightAll          int
 	nolendMin, nolendOther, guarOverMin, sumChecksMinFit, sumChecksPhase1 int
 	conservationExact, conservationSaturated, detCompares                 int
@@ -168,6 +180,7 @@ func (st *c02Stats) flush(c *kit.Case) {
 	put("inputs_partial", st.partial)
 	put("inputs_saturated", st.saturated)
 	put("reference_comparisons", st.refCompared)
+	put("converse_misses_reference_tiebreak_or_method_differs", st.refDiffers)
 	put("reference_multi_round", st.refMultiRound)
 	put("residual_rounds", st.residualRounds)
 	put("residual_units_redistributed", st.residualUnits)
@@ -196,9 +209,10 @@ const (
 )
 
 type c02Outcome struct {
-	class    int
-	rounds   int
-	residual bool
+	class      int
+	rounds     int
+	residual   bool
+	refDiffers bool
 }
 
 // c02Exceeds reports a*wb - b*wa > k*(wa+wb) for non-negative operands, exactly (128 bit).
@@ -212,6 +226,15 @@ func c02Exceeds(a, wb, b, wa int64, k int) bool {
 	}
 	sh, sl := bits.Mul64(uint64(wa)+uint64(wb), uint64(k))
 	return hi > sh || (hi == sh && lo > sl)
+}
+
+// c02ExceedsBig is c02Exceeds in math/big (harness self-check of the 128-bit arithmetic).
+func c02ExceedsBig(a, wb, b, wa int64, k int) bool {
+	l := new(big.Int).Mul(big.NewInt(a), big.NewInt(wb))
+	l.Sub(l, new(big.Int).Mul(big.NewInt(b), big.NewInt(wa)))
+	r := new(big.Int).Add(big.NewInt(wa), big.NewInt(wb))
+	r.Mul(r, big.NewInt(int64(k)))
+	return l.Cmp(r) > 0
 }
 
 // ---------------------------------------------------------------------------------------------
@@ -510,7 +533,7 @@ func c02Check(area string, sibs []c02Sib, total int64, rt []int64, small bool, s
 			}
 		}
 	}
-	// exact differential against the reference. Non-competing siblings keep what was observed.
+	// reference (evidence and counter only, never a verdict). Non-competing siblings keep what was observed.
 	for i := range sibs {
 		if sibs[i].competes() {
 			scr.base[i] = sibs[i].m()
@@ -533,7 +556,10 @@ func c02Check(area string, sibs []c02Sib, total int64, rt []int64, small bool, s
 	out.rounds, out.residual = info.rounds, info.residualRnds > 0
 	for i := range sibs {
 		if scr.want[i] != rt[i] {
-			return "C02/" + area + "/reference-mismatch", fmt.Sprintf("%s gets %d, the water-filling reference (largest remainder, ties by name) gives %d; reference=%v", sibs[i].name, rt[i], scr.want[i], scr.want), out
+			// another tie-break or apportionment method than the reference's: not fixed by the statement
+			st.refDiffers++
+			out.refDiffers = true
+			break
 		}
 	}
 	return "", "", out
@@ -920,7 +946,7 @@ func c02Totals(r *kit.Rand, sibs []c02Sib, k int) ([]int64, []int) {
 
 func TestVerifC02Sampled(t *testing.T) {
 	kit.Run(t, kit.Config{Property: "C02", Unit: "sampled", Quick: 20000, Thorough: 400000,
-		Rule: "2-12 siblings with unique names; request/min/guarantee from a tiny, milli-CPU, memory-byte or 64-bit-scale (up to 2^62) pool with request placed at 0, m-1, m, m+1, m+small, far above; weights all equal / small and large primes / huge odd / like the quota max / mixed, 12% zero, 4% all zero; 75% lending; sums kept within int64 (in-domain rule); 5 totals per sibling set drawn from: 0, below / one under / at / one over the minimum-phase sum, between, one under / at / one over the total demand, far above, MaxInt64, sum of minimums, a few units over the minimum-phase sum. Every (set,total) is executed on 6 real quotaTrees built in different insertion orders, 3 passes each interleaved with the other totals, all 18 outputs must be identical; then the relations and the math/big reference. distinct = (siblings, outcome class, rounds, competitors, residual?, zero-weight competitor?, non-lending?, value scale, weight class, total class); non-trivial = a partial division with at least 2 rounds or a redistributed rounding residue"},
+		Rule: "2-12 siblings with unique names; request/min/guarantee from a tiny, milli-CPU, memory-byte or 64-bit-scale (up to 2^62) pool with request placed at 0, m-1, m, m+1, m+small, far above; weights all equal / small and large primes / huge odd / like the quota max / mixed, 12% zero, 4% all zero; 75% lending; sums kept within int64 (in-domain rule); 5 totals per sibling set drawn from: 0, below / one under / at / one over the minimum-phase sum, between, one under / at / one over the total demand, far above, MaxInt64, sum of minimums, a few units over the minimum-phase sum. Every (set,total) is executed on 6 real quotaTrees built in different insertion orders, 3 passes each interleaved with the other totals, all 18 outputs must be identical; then the relations (the math/big reference only feeds counters). distinct = (siblings, outcome class, rounds, competitors, residual?, zero-weight competitor?, non-lending?, value scale, weight class, total class); non-trivial = a partial division with at least 2 rounds or a redistributed rounding residue"},
 		func(c *kit.Case) {
 			r := c.R
 			var st c02Stats
@@ -997,6 +1023,25 @@ func TestVerifC02Sampled(t *testing.T) {
 						}
 					}
 					c.Count("reference_self_checks", 1)
+				}
+				// harness self-check: the 128-bit fairness arithmetic agrees with math/big (also on pairs
+				// and slacks the oracle did not need, so that both outcomes of the predicate are exercised)
+				for a := 0; a < n && o.class != c02ClassBelow; a++ {
+					for b := 0; b < n; b++ {
+						if a == b || sibs[a].w == 0 || sibs[b].w == 0 || !sibs[a].competes() || !sibs[b].competes() {
+							continue
+						}
+						ga, gb := rt[a]-sibs[a].m(), rt[b]-sibs[b].m()
+						for _, k := range []int{0, 1, nComp} {
+							if c02Exceeds(ga, sibs[b].w, gb, sibs[a].w, k) != c02ExceedsBig(ga, sibs[b].w, gb, sibs[a].w, k) {
+								c.Harness("128-bit and math/big fairness predicates disagree on gains %d,%d weights %d,%d slack %d", ga, gb, sibs[a].w, sibs[b].w, k)
+							}
+							c.Count("fairness_arithmetic_self_checks", 1)
+						}
+					}
+				}
+				if o.refDiffers {
+					c.Count("sampled_divisions_differing_from_reference", 1)
 				}
 				if o.class == c02ClassPartial && (o.rounds >= 2 || o.residual) {
 					nontrivial = true
